@@ -3870,7 +3870,7 @@ class Qube(object):
 
         # Check for compatible shapes
         try:
-            (self, arg) = Qube.broadcast(self, arg)
+            (self, arg) = Qube.broadcast(self, arg, _protected=False)
         except ValueError:
             return None
 
@@ -3884,7 +3884,7 @@ class Qube(object):
         if arg is None:
             return False        # an incompatible argument is not equal
 
-        (self, arg) = Qube.broadcast(self, arg)
+        (self, arg) = Qube.broadcast(self, arg, _protected=False)
 
         # Compare...
         compare = (self._values_ == arg._values_)
@@ -3924,7 +3924,7 @@ class Qube(object):
         if arg is None:
             return True         # an incompatible argument is not equal
 
-        (self, arg) = Qube.broadcast(self, arg)
+        (self, arg) = Qube.broadcast(self, arg, _protected=False)
 
         # Compare...
         compare = (self._values_ != arg._values_)
